@@ -6,13 +6,16 @@
 (* TLC enumerates bin counts, samplings, offsets and every pair of aligned    *)
 (* limits, checks the slice against Polar.tla and emits the cases.            *)
 EXTENDS Polar, TLC, Json
-CONSTANTS MaxR, MaxA, RSamplings, ROffsets, AOffsets, Emit
+CONSTANTS MaxR, MaxA, RSamplings, ROffsets, AOffsets, Emit,
+          ClampNegative       \* TRUE: as coded, an index below the first bin is clamped to 0; FALSE: it reaches the slice (and counts from the end)
 VARIABLES c, done
 vars == <<c, done>>
 
-LowerIndex(x) == RCeil(x)
-UpperIndex(x) == RFloor(x)
-SliceSet(n, lo, hi) == {k \in 0..(n - 1) : k >= lo /\ k < hi}
+Clamp(i) == IF ClampNegative /\ i < 0 THEN 0 ELSE i
+LowerIndex(x) == Clamp(RCeil(x))
+UpperIndex(x) == Clamp(RFloor(x))
+PyIndex(i, n) == IF i < 0 THEN (IF i + n < 0 THEN 0 ELSE i + n) ELSE (IF i > n THEN n ELSE i)       \* Python slice semantics
+SliceSet(n, lo, hi) == {k \in 0..(n - 1) : k >= PyIndex(lo, n) /\ k < PyIndex(hi, n)}
 Selected(nr, na, ro, rs, ao, as, rl, al) ==
   LET RR == IF NoLimit(rl) THEN 0..(nr - 1)
            ELSE SliceSet(nr, LowerIndex(RDiv(RSub(rl[1], ro), rs)), UpperIndex(RDiv(RSub(rl[2], ro), rs)))
@@ -21,7 +24,11 @@ Selected(nr, na, ro, rs, ao, as, rl, al) ==
   IN {i * na + j : i \in RR, j \in AA}
 
 Edge(o, s, k) == RAdd(o, RMul(RInt(k), s))
-Limits(n, o, s) == {<< >>} \cup {<<Edge(o, s, a), Edge(o, s, b)>> : a \in 0..n, b \in 0..n}
+Half(s) == RDiv(s, RInt(2))
+(* limits on bin edges, a lower limit one bin below the first edge (a rotated or offset detector asked from zero), and limits *)
+(* in the middle of a bin (only the bins entirely inside count)                                                              *)
+Limits(n, o, s) == {<< >>} \cup {<<Edge(o, s, a), Edge(o, s, b)>> : a \in (-1)..n, b \in 0..n}
+                          \cup {<<RAdd(Edge(o, s, a), Half(s)), RSub(Edge(o, s, b), Half(s))>> : a \in (-1)..(n - 1), b \in 1..n}
 Init == /\ \E nr \in 1..MaxR, na \in 1..MaxA, rs \in RSamplings, ro \in ROffsets, ao \in AOffsets :
             LET as == <<2, na>> IN      \* 2 pi / na, in units of pi
             \E rl \in Limits(nr, ro, rs), al \in Limits(na, ao, as) :
